@@ -242,7 +242,7 @@ Proof.
         -- cbn [ok_seq concat_text otext text]. rewrite append_nil_r.
            destruct (float_first s Hs) as (c & Hc & Hd). rewrite Hc, (safe_minus_digit c Hd).
            cbn. unfold safe_float. rewrite Hs. reflexivity.
-      * cbn [fold]. cbn [String.eqb Ascii.eqb Bool.eqb]. cbn iota. cbn [fold]. rewrite Hnn. unfold fold_neg. rewrite Hnn.
+      * cbn [fold]. cbn [String.eqb Ascii.eqb Bool.eqb]. cbn iota. cbn [fold]. unfold fold_neg. rewrite Hnn.
         assert (Hsa : f_sign (f_abs b) = false) by (unfold f_sign; apply Z.leb_gt; lia).
         rewrite Hsa. f_equal. lia.
     + exists (FLitF (f_abs b)). split.
@@ -251,7 +251,7 @@ Proof.
         rewrite append_nil_r in Hl. rewrite Hl.
         -- apply parse_atom. intros pe. cbn. rewrite Hp. reflexivity.
         -- cbn. unfold safe_float. rewrite Hs. reflexivity.
-      * cbn [fold]. rewrite Hnn. f_equal. lia.
+      * cbn [fold]. f_equal. lia.
 Qed.
 
 End IntRT.
